@@ -540,6 +540,8 @@ pub struct RegCase {
     pub vectors: Vec<Vector>,
     /// class restriction of (b): generated from a program with unique definition paths / real metadata
     pub in_class: bool,
+    /// witness of a recorded finding: (finding id, text a rustc error must contain)
+    pub expect_fail: Option<(String, String)>,
 }
 
 #[derive(Default)]
@@ -564,9 +566,14 @@ fn quiet<T>(f: impl FnOnce() -> T) -> Option<T> {
 
 fn encode(v: &scale_value::Value, id: u32, reg: &PortableRegistry) -> Option<Vec<u8>> {
     let mut buf = vec![];
-    match quiet(|| scale_value::scale::encode_as_type(v, id, reg, &mut buf).is_ok()) {
-        Some(true) => Some(buf),
-        _ => None,
+    match quiet(|| scale_value::scale::encode_as_type(v, id, reg, &mut buf)) {
+        Some(Ok(())) => Some(buf),
+        other => {
+            if std::env::var("CT_DEBUG").is_ok() {
+                eprintln!("encode_as_type failed: id {id} {:?} value {} : {:?}", reg.types[id as usize].ty.path.segments, v, other.map(|r| r.err().map(|e| e.to_string())));
+            }
+            None
+        }
     }
 }
 
@@ -919,7 +926,7 @@ pub fn prepare(k: usize, name: &str, regjson: Value, reg: &PortableRegistry, par
             }
         }
     }
-    Some(RegCase { k, name: name.to_string(), regjson, spec, module_src, items, vectors, in_class })
+    Some(RegCase { k, name: name.to_string(), regjson, spec, module_src, items, vectors, in_class, expect_fail: None })
 }
 
 // ---------------------------------------------------------------------------
@@ -1256,9 +1263,32 @@ pub fn run(o: &Opts) -> Value {
             add("polkadot", Value::Null, &reg, true, &mut cases, &mut counts);
         }
     }
+    // witnesses of recorded findings (corpus/compile/*.json): compiled in a bin of their own, expected to fail
+    if o.replay.is_none() {
+        let dir = crate::util::verif_dir().join("corpus").join("compile");
+        let mut files: Vec<PathBuf> = std::fs::read_dir(&dir).map(|rd| rd.filter_map(|e| e.ok()).map(|e| e.path()).collect()).unwrap_or_default();
+        files.sort();
+        for f in files {
+            if f.extension().map(|e| e != "json").unwrap_or(true) {
+                continue;
+            }
+            let v: Value = match std::fs::read_to_string(&f).ok().and_then(|t| serde_json::from_str(&t).ok()) {
+                Some(v) => v,
+                None => continue,
+            };
+            let (Some(fid), Some(needle)) = (v["finding"].as_str(), v["expect"]["rustc_error_contains"].as_str()) else { continue };
+            let reg = reggen::to_registry(&v["input"]["registry"]);
+            let mut scratch_counts = Counts::default();
+            if let Some(mut c) = prepare(k.get(), &format!("witness:{fid}"), v["input"]["registry"].clone(), &reg, "ab", true, true, o.seed, &mut scratch_counts) {
+                c.expect_fail = Some((fid.to_string(), needle.to_string()));
+                cases.push(c);
+            }
+            k.set(k.get() + 1);
+        }
+    }
     let t_prep = t0.elapsed().as_secs_f64();
 
-    // groups: big registries alone, the others round-robin over the remaining bins
+    // groups: big registries and witnesses alone, the others balanced over the remaining bins
     let nbins = 8usize;
     let mut groups: Vec<Vec<&RegCase>> = vec![];
     let mut small: Vec<Vec<&RegCase>> = (0..nbins).map(|_| vec![]).collect();
@@ -1267,7 +1297,7 @@ pub fn run(o: &Opts) -> Value {
     order.sort_by_key(|c| std::cmp::Reverse(c.module_src.len() + c.vectors.len() * 300));
     for c in order {
         let w = c.module_src.len() + c.vectors.len() * 300;
-        if w > 200_000 {
+        if w > 200_000 || c.expect_fail.is_some() {
             groups.push(vec![c]);
         } else {
             let (i, _) = load.iter().enumerate().min_by_key(|(_, l)| **l).unwrap();
@@ -1281,7 +1311,8 @@ pub fn run(o: &Opts) -> Value {
     let _ = std::fs::remove_dir_all(&dir);
     let scratch = Scratch { dir: dir.clone(), keep: o.keep };
     write_project(&dir, &groups);
-    let src_bytes: usize = cases.iter().map(|c| c.module_src.len()).sum();
+    let real: Vec<&RegCase> = cases.iter().filter(|c| c.expect_fail.is_none()).collect();
+    let src_bytes: usize = real.iter().map(|c| c.module_src.len()).sum();
 
     let t1 = Instant::now();
     let (ok, log) = run_cmd(
@@ -1303,81 +1334,103 @@ pub fn run(o: &Opts) -> Value {
         let regjson = if c.regjson.is_null() { json!("polkadot: /repo/artifacts/polkadot_metadata.scale (types of the runtime metadata)") } else { c.regjson.clone() };
         let j = json!({"kind": "compile-tier", "registry_name": c.name, "what": what,
                        "input": {"registry": regjson, "settings": c.spec},
-                       "rerun": "vharness compile-tier <seed> <outdir> --replay <this file> --parts abc"});
+                       "rerun": "harness/target/release/vharness compile-tier <seed> <outdir> --replay <this file> --parts abc"});
         std::fs::write(&p, serde_json::to_string_pretty(&j).unwrap()).unwrap();
         p.to_string_lossy().to_string()
     };
 
     // rustc diagnostics, attributed to a registry through the file name
     let err_lines: Vec<&str> = log.lines().filter(|l| l.contains(": error")).collect();
-    let mut failed_bins: BTreeSet<usize> = BTreeSet::new();
     let mut rustc_by_reg: BTreeMap<usize, Vec<String>> = BTreeMap::new();
     let mut other_errors: Vec<String> = vec![];
     for l in &err_lines {
-        let bin = l.find("src/bin/g").and_then(|i| l[i + 9..].split('/').next().and_then(|s| s.parse::<usize>().ok()));
         let rk = l.find("/r_").and_then(|i| l[i + 3..].split('.').next().and_then(|s| s.parse::<usize>().ok()));
-        if let Some(b) = bin {
-            failed_bins.insert(b);
-        }
         match rk {
             Some(r) if by_k.contains_key(&r) => rustc_by_reg.entry(r).or_default().push(l.to_string()),
             _ => other_errors.push(l.to_string()),
         }
     }
+    let mut known_reproduced: BTreeMap<String, String> = BTreeMap::new();
+    let mut known_not_reproduced: Vec<String> = vec![];
+    for c in cases.iter() {
+        if let Some((fid, needle)) = &c.expect_fail {
+            match rustc_by_reg.get(&c.k).and_then(|ls| ls.iter().find(|l| l.contains(needle.as_str()))) {
+                Some(l) => {
+                    known_reproduced.insert(fid.clone(), l.clone());
+                }
+                None => known_not_reproduced.push(fid.clone()),
+            }
+        }
+    }
+    let mut unexpected: Vec<&String> = vec![];
     for (r, lines) in &rustc_by_reg {
         let c = by_k[r];
+        if c.expect_fail.is_some() {
+            continue;
+        }
+        unexpected.extend(lines.iter());
         let p = write_replay(c, json!({"rustc_errors": lines.iter().take(20).collect::<Vec<_>>(), "n_errors": lines.len()}));
         failures.push(json!({"kind": "rustc", "registry": c.k, "name": c.name, "replay": p, "first": lines[0]}));
     }
-    let rustc_ok = ok && err_lines.is_empty();
-    if !rustc_ok && rustc_by_reg.is_empty() {
-        // a build failure that cannot be attributed to a registry (support code, dependencies, cargo)
-        failures.push(json!({"kind": "build", "log_tail": log.lines().rev().take(40).collect::<Vec<_>>().into_iter().rev().collect::<Vec<_>>()}));
-    }
+    unexpected.extend(other_errors.iter());
 
-    // run the binaries that were built
+    // run the binaries; every bin without an expected failure must exist and account for all its vectors
     let mut run = 0u64;
     let mut pass = 0u64;
     let mut canon = 0u64;
     let mut fails: Vec<(String, String)> = vec![];
-    let mut crashes: Vec<String> = vec![];
+    let mut missing_bins: Vec<usize> = vec![];
+    let mut compiled = 0usize;
     let t2 = Instant::now();
     let vec_by_tag: BTreeMap<&str, (&RegCase, &Vector)> = cases.iter().flat_map(|c| c.vectors.iter().map(move |v| (v.tag.as_str(), (c, v)))).collect();
-    for gi in 0..groups.len() {
-        let exe = dir.join("target").join("debug").join(format!("g{gi}"));
-        if !exe.exists() {
+    for (gi, g) in groups.iter().enumerate() {
+        if g.iter().any(|c| c.expect_fail.is_some()) {
             continue;
         }
+        let exe = dir.join("target").join("debug").join(format!("g{gi}"));
+        if !exe.exists() {
+            missing_bins.push(gi);
+            continue;
+        }
+        compiled += g.len();
+        let expected: u64 = g.iter().map(|c| c.vectors.len() as u64).sum();
         let (_, outp) = run_cmd(&mut std::process::Command::new(&exe));
-        let mut done = false;
+        let mut done = None;
         for l in outp.lines() {
             if let Some(rest) = l.strip_prefix("FAIL ") {
                 let mut it = rest.splitn(2, ' ');
                 let tag = it.next().unwrap_or("").to_string();
                 fails.push((tag, it.next().unwrap_or("").to_string()));
             } else if let Some(rest) = l.strip_prefix("DONE ") {
-                done = true;
+                let mut m = BTreeMap::new();
                 for kv in rest.split(' ') {
                     let mut it = kv.split('=');
-                    let (key, val) = (it.next().unwrap_or(""), it.next().and_then(|v| v.parse::<u64>().ok()).unwrap_or(0));
-                    match key {
-                        "run" => run += val,
-                        "pass" => pass += val,
-                        "canon" => canon += val,
-                        _ => {}
-                    }
+                    m.insert(it.next().unwrap_or("").to_string(), it.next().and_then(|v| v.parse::<u64>().ok()).unwrap_or(0));
                 }
+                run += m.get("run").copied().unwrap_or(0);
+                pass += m.get("pass").copied().unwrap_or(0);
+                canon += m.get("canon").copied().unwrap_or(0);
+                done = m.get("run").copied();
             }
         }
-        if !done {
-            // find the vector that kills the process
-            let (_, tr) = run_cmd(std::process::Command::new(&exe).env("CT_TRACE", "1"));
-            let last = tr.lines().filter_map(|l| l.strip_prefix("RUN ")).last().unwrap_or("").to_string();
-            crashes.push(last.clone());
-            fails.push((last, "the test process died (stack overflow / abort) on this vector".into()));
+        match done {
+            Some(n) if n == expected => {}
+            Some(n) => fails.push((format!("bin g{gi}"), format!("ran {n} of {expected} vectors"))),
+            None => {
+                // find the vector that kills the process
+                let (_, tr) = run_cmd(std::process::Command::new(&exe).env("CT_TRACE", "1"));
+                let last = tr.lines().filter_map(|l| l.strip_prefix("RUN ")).last().unwrap_or("").to_string();
+                fails.push((last, "the test process died (stack overflow / abort) on this vector".into()));
+            }
         }
     }
     let t_run = t2.elapsed().as_secs_f64();
+    let rustc_ok = unexpected.is_empty() && missing_bins.is_empty() && (ok || !known_reproduced.is_empty());
+    if !rustc_ok && failures.is_empty() {
+        // a build failure that cannot be attributed to a registry (support code, dependencies, cargo)
+        failures.push(json!({"kind": "build", "missing_bins": missing_bins,
+                             "log_tail": log.lines().rev().take(40).collect::<Vec<_>>().into_iter().rev().collect::<Vec<_>>()}));
+    }
     for (tag, msg) in fails.iter().take(10) {
         if let Some((c, v)) = vec_by_tag.get(tag.as_str()) {
             let p = write_replay(c, json!({"type_id": v.id, "variant_index": v.variant, "generated_type": v.ty, "bytes_hex": hexs(&v.bytes),
@@ -1390,14 +1443,13 @@ pub fn run(o: &Opts) -> Value {
         }
     }
 
-    let compiled: usize = groups.iter().enumerate().filter(|(gi, _)| !failed_bins.contains(gi) && rustc_ok || dir.join("target/debug").join(format!("g{gi}")).exists()).map(|(_, g)| g.len()).sum();
-    let n_vectors: usize = cases.iter().map(|c| c.vectors.len()).sum();
-    let n_b = cases.iter().flat_map(|c| c.vectors.iter()).filter(|v| v.up.is_none()).count();
-    let items: usize = cases.iter().map(|c| c.items).sum();
+    let n_vectors: usize = real.iter().map(|c| c.vectors.len()).sum();
+    let n_b = real.iter().flat_map(|c| c.vectors.iter()).filter(|v| v.up.is_none()).count();
+    let items: usize = real.iter().map(|c| c.items).sum();
     drop(scratch);
     let report = json!({
         "parts": o.parts,
-        "registries": cases.len(),
+        "registries": real.len(),
         "registries_compiled": compiled,
         "registries_skipped": counts.skipped_regs,
         "polkadot": o.polkadot,
@@ -1414,8 +1466,9 @@ pub fn run(o: &Opts) -> Value {
         "vectors_failed": fails.len(),
         "vectors_skipped": counts.skipped_vectors,
         "rustc_ok": rustc_ok,
-        "rustc_errors": err_lines.iter().take(20).collect::<Vec<_>>(),
-        "unattributed_errors": other_errors.iter().take(20).collect::<Vec<_>>(),
+        "rustc_errors": unexpected.iter().take(20).collect::<Vec<_>>(),
+        "known_findings_reproduced": known_reproduced,
+        "known_findings_not_reproduced": known_not_reproduced,
         "failures": failures,
         "scratch_removed": !dir.exists(),
         "prepare_s": (t_prep * 10.0).round() / 10.0,
